@@ -443,6 +443,22 @@ pub static THEME_NESTED: &[Op] = &[
     Put(M, K("a"), Val::Str("s")),
 ];
 
+/// multi-unit characters: 2/4 UTF-8 units, 2 UTF-16 units, 2 code points = 1 grapheme, a ZWJ sequence
+pub static THEME_UNICODE: &[Op] = &[
+    Splice(T, Start, 0, "é"),
+    Splice(T, Mid, 0, "😀"),
+    Splice(T, End, 0, "e\u{301}"),
+    Splice(T, At(1), 0, "👨\u{200d}👩\u{200d}👧"),
+    Splice(T, Start, 1, ""),
+    Splice(T, Mid, 2, "x"),
+    Splice(T, Last, 1, ""),
+    Put(T, I(Mid), Val::Str("😀")),
+    SplitBlock(T, Mid),
+    Mark(T, Start, Mid, "bold", Val::Bool(true), EBOTH),
+    Mark(T, Mid, End, "link", Val::Str("u"), EN),
+    Mark(T, At(1), Last, "bold", Val::Null, EA),
+];
+
 pub fn theme(name: &str) -> &'static [Op] {
     match name {
         "map" => THEME_MAP,
@@ -450,6 +466,7 @@ pub fn theme(name: &str) -> &'static [Op] {
         "text" => THEME_TEXT,
         "marks" => THEME_MARKS,
         "nested" => THEME_NESTED,
+        "unicode" => THEME_UNICODE,
         _ => panic!("unknown theme {}", name),
     }
 }
